@@ -108,3 +108,39 @@ fn c12_reloaded_layer_is_read_by_every_callback() {
     crate::Subscribe::<VRoot>::on_event(&layer, &ev, subscribe::Context::__verif_new(&root));
     assert!(vseen(1, VK_EVENT) == 1 && vseen(0, VK_EVENT) == 0, "C12.layer.events_reach_the_new_value_only");
 }
+
+// span-lifecycle callbacks of a reloadable per-layer FILTER (stateful filters such as EnvFilter's span directives live
+// on them) are forwarded to the CURRENT value, each to its namesake, exactly once
+vstatic!(FCALLS: [VAtomicUsize; 5] = [VAtomicUsize::new(0), VAtomicUsize::new(0), VAtomicUsize::new(0), VAtomicUsize::new(0), VAtomicUsize::new(0)]);
+#[derive(Clone, Copy)]
+struct VFilRec { gen: usize }
+impl subscribe::Filter<VRoot> for VFilRec {
+    fn enabled(&self, _: &Metadata<'_>, _: &subscribe::Context<'_, VRoot>) -> bool { true }
+    fn on_new_span(&self, _: &span::Attributes<'_>, _: &span::Id, _: subscribe::Context<'_, VRoot>) { if self.gen == 1 { FCALLS[0].fetch_add(1, VSeq); } else { FCALLS[0].fetch_add(100, VSeq); } }
+    fn on_enter(&self, _: &span::Id, _: subscribe::Context<'_, VRoot>) { if self.gen == 1 { FCALLS[1].fetch_add(1, VSeq); } else { FCALLS[1].fetch_add(100, VSeq); } }
+    fn on_exit(&self, _: &span::Id, _: subscribe::Context<'_, VRoot>) { if self.gen == 1 { FCALLS[2].fetch_add(1, VSeq); } else { FCALLS[2].fetch_add(100, VSeq); } }
+    fn on_close(&self, _: span::Id, _: subscribe::Context<'_, VRoot>) { if self.gen == 1 { FCALLS[3].fetch_add(1, VSeq); } else { FCALLS[3].fetch_add(100, VSeq); } }
+    fn on_record(&self, _: &span::Id, _: &span::Record<'_>, _: subscribe::Context<'_, VRoot>) { if self.gen == 1 { FCALLS[4].fetch_add(1, VSeq); } else { FCALLS[4].fetch_add(100, VSeq); } }
+}
+#[kani::proof]
+#[kani::unwind(7)]
+#[kani::stub(core::fmt::Formatter::pad, pad_stub)]
+#[kani::stub(tracing_core::callsite::rebuild_interest_cache, rebuild_stub)]
+#[kani::stub(tracing_log::log::set_max_level, set_max_level_stub)]
+fn c12_reloaded_filter_gets_every_span_lifecycle_callback_under_its_own_name() {
+    let (fil, handle) = Subscriber::new(VFilRec { gen: 0 });
+    assert!(handle.reload(VFilRec { gen: 1 }).is_ok(), "C12.filter.lifecycle.reload_ok");
+    let root = VRoot::empty();
+    let id = span::Id::from_u64(1);
+    let vs = VMETA_SPAN.fields().value_set(&[]);
+    let which: usize = nd(); kani::assume(which < 5);
+    match which {
+        0 => { let a = span::Attributes::new(&VMETA_SPAN, &vs); subscribe::Filter::<VRoot>::on_new_span(&fil, &a, &id, subscribe::Context::__verif_new(&root)) }
+        1 => subscribe::Filter::<VRoot>::on_enter(&fil, &id, subscribe::Context::__verif_new(&root)),
+        2 => subscribe::Filter::<VRoot>::on_exit(&fil, &id, subscribe::Context::__verif_new(&root)),
+        3 => subscribe::Filter::<VRoot>::on_close(&fil, id.clone(), subscribe::Context::__verif_new(&root)),
+        _ => subscribe::Filter::<VRoot>::on_record(&fil, &id, &span::Record::new(&vs), subscribe::Context::__verif_new(&root)),
+    }
+    let mut i = 0;
+    while i < 5 { assert!(FCALLS[i].load(VSeq) == (i == which) as usize, "C12.filter.lifecycle.exactly_the_namesake_callback_of_the_NEW_value_runs_once"); i += 1; }
+}
